@@ -64,6 +64,10 @@ def r_encaps(f):
             R.fail("TooDeeViewMut", "impl:Clone", "TooDeeViewMut implements %s: two mutable views of the same cells could coexist" % tp, "%s:%s" % (im["span"]["file"], im["span"]["lo"]))
         if sh in ("RowsMut", "ColMut") and re.search(r" as core::(clone::Clone|marker::Copy)>", tp):
             R.fail(sh, "impl:Clone", "%s implements %s: its items would alias" % (sh, tp), "%s:%s" % (im["span"]["file"], im["span"]["lo"]))
+        if sh == "DrainCol" and re.search(r" as core::(clone::Clone|marker::Copy)>", tp):
+            R.fail("DrainCol", "impl:Clone", "DrainCol implements %s: a drain OWNS the cells of the removed column (it reads them out bitwise and closes the gap when dropped), so a copy yields every cell a second time and compacts the buffer twice" % tp, "%s:%s" % (im["span"]["file"], im["span"]["lo"]))
+    n += 1
+    R.inst("DrainCol <impls>", "the column drain is not Clone / Copy", not any(x.fn == "DrainCol" and x.desc == "impl:Clone" for x in R.findings))
     n += 1
     R.inst("<impls>", "%d impls scanned: no DerefMut/BorrowMut/AsMut<Vec> for TooDee, no Clone/Copy for TooDeeViewMut/RowsMut/ColMut" % len(f.impls), not any(x.desc.startswith("impl:") for x in R.findings))
     # the drains implement the three iterator traits
@@ -88,6 +92,95 @@ def r_encaps(f):
             R.fail(b.ident, "ret:&mut Vec", "%s returns %s" % (b.ident, rt), b.where())
     n += 1
     R.inst("<mir>", "no body returns a `&mut Vec`", nb == 0)
-    R.require_floor(n, 25, "fields / scans")
+    # (f) the raw span of a cursor (`Rows.v`, `RowsMut.v`, `Col.v`, `ColMut.v`) contains the gap cells between the rows / column
+    # cells of a strided view, i.e. cells OUTSIDE the view.  Only the cursor's own methods may read or write through it; any other
+    # function may at most ask for its length.
+    nspan = 0
+    span_bad = set()
+    for b in f.fn_bodies:
+        root = b
+        k = 0
+        while root is not None and root.kind == "Closure" and k < 8:
+            root = f.by_id.get(root.d.get("root")); k += 1
+        if root is None or root.self_head in CRATE_ADTS:
+            continue
+        for finding in _span_escapes(f, b):
+            nspan += 1
+            span_bad.add(finding[0])
+            R.fail("%s (raw span used by %s)" % (finding[0], root.ident), "cursor-span:%s.%s" % finding[:2], "%s reaches into the raw span `%s.%s` of a cursor it did not define: that slice includes the cells between the view's rows (cells outside the view), so reading or writing it as a whole bypasses the stride (%s)" % (root.ident, finding[0], finding[1], finding[2]), b.where(finding[3]))
+    for ct in CRATE_ADTS:
+        n += 1
+        R.inst("%s <raw span>" % ct, "no function outside the impls of %s uses its raw span `v` for anything but its length" % ct, ct not in span_bad)
+    R.require_floor(n, 30, "fields / scans")
     R.require_floor(ns, 100, "exported signatures")
     return R, n
+
+
+def _span_escapes(f, b):
+    from .rules_cursor import _places
+    fields = {a["id"].split("::")[-1]: [x["name"] for x in a["fields"]] for a in f.adts if a["id"].split("::")[-1] in CRATE_ADTS}
+    out = []
+    hits = []      # (block, stmt index or None, place)
+    for bi, bl in enumerate(b.blocks):
+        units = [(si, st) for si, st in enumerate(bl["stmts"])] + [(None, bl["term"])]
+        for si, u in units:
+            for pl in _places(u):
+                ty = b.locals[pl["local"]] if pl["local"] < len(b.locals) else None
+                ty = ty if isinstance(ty, str) else (ty or {}).get("ty")
+                for pe in pl["proj"]:
+                    if pe["k"] == "field" and ty:
+                        h = re.sub(r"^(&mut |&)+", "", head(ty) or "")
+                        if h in fields and pe.get("i") is not None and pe["i"] < len(fields[h]) and fields[h][pe["i"]] == "v":
+                            hits.append((bi, si, u, h))
+                        ty = pe.get("ty")
+                    elif pe["k"] != "deref":
+                        ty = None
+    for bi, si, u, h in hits:
+        why, span = None, None
+        if si is None:
+            fn = (u.get("func") or {}).get("fn") if u.get("k") == "call" else None
+            if not (fn and fn.get("name") in ("len", "is_empty")):
+                why, span = "passed to %s" % ((fn or {}).get("name") or u.get("k")), u.get("span")
+        else:
+            st = u
+            if st["k"] == "assign" and not st["p"]["proj"]:
+                rv = st["rv"]
+                if rv["k"] in ("len", "ptr_metadata") or (rv["k"] == "unary" and rv.get("op") == "PtrMetadata"):
+                    continue
+                tmp = st["p"]["local"]
+                uses = _uses_of(b, tmp, (bi, si))
+                bad = [x for x in uses if x not in ("len", "is_empty", "PtrMetadata")]
+                if bad:
+                    why, span = "then used by %s" % ", ".join(sorted(set(bad))), st.get("span")
+            else:
+                why, span = "stored", st.get("span")
+        if why:
+            out.append((h, "v", why, span))
+    return out
+
+
+def _uses_of(b, loc, skip, depth=0):
+    """how a temporary holding (a reference to / copy of) the span is used: names of the calls it is passed to, `PtrMetadata`, or
+    `other`; reborrows and moves into further temporaries are followed"""
+    from .rules_cursor import _places
+    out = []
+    for bi, bl in enumerate(b.blocks):
+        for si, st in enumerate(bl["stmts"]):
+            if (bi, si) == skip or st["k"] != "assign":
+                continue
+            if not any(pl["local"] == loc for pl in _places(st["rv"])):
+                continue
+            rv = st["rv"]
+            if rv["k"] in ("len", "ptr_metadata") or (rv["k"] == "unary" and rv.get("op") == "PtrMetadata"):
+                out.append("PtrMetadata")
+            elif rv["k"] in ("use", "ref", "rawptr", "cast") and not st["p"]["proj"] and depth < 6:
+                out.extend(_uses_of(b, st["p"]["local"], (bi, si), depth + 1))
+            else:
+                out.append("other")
+        t = bl["term"]
+        if t and any(pl["local"] == loc for pl in _places({k: v for k, v in t.items() if k not in ("dest", "func")} if t["k"] == "call" else t)):
+            if t["k"] == "call":
+                out.append(((t.get("func") or {}).get("fn") or {}).get("name") or "indirect call")
+            elif t["k"] != "drop":
+                out.append(t["k"])
+    return out
